@@ -120,7 +120,7 @@ class Transposed(CompoundTensorOperator):
 class Outer(CompoundTensorOperator):
     """Outer."""
 
-    __slots__ = ("ufl_free_indices", "ufl_index_dimensions")
+    __slots__ = ("_initialised", "ufl_free_indices", "ufl_index_dimensions")
 
     def __new__(cls, a, b):
         """Create new Outer."""
@@ -130,14 +130,21 @@ class Outer(CompoundTensorOperator):
             return Zero(ash + bsh, fi, fid)
         if ash == () or bsh == ():
             return Conj(a) * b
-        return CompoundTensorOperator.__new__(cls)
+        # Construct a new instance to be initialised
+        self = CompoundTensorOperator.__new__(cls)
+        self._initialised = False
+        return self
 
     def __init__(self, a, b):
         """Initialise."""
+        if self._initialised:
+            # `__new__` returned an existing Outer (e.g. outer(1, outer(v, w)))
+            return
         CompoundTensorOperator.__init__(self, (a, b))
         fi, fid = merge_nonoverlapping_indices(a, b)
         self.ufl_free_indices = fi
         self.ufl_index_dimensions = fid
+        self._initialised = True
 
     @property
     def ufl_shape(self):
@@ -153,7 +160,7 @@ class Outer(CompoundTensorOperator):
 class Inner(CompoundTensorOperator):
     """Inner."""
 
-    __slots__ = ("ufl_free_indices", "ufl_index_dimensions")
+    __slots__ = ("_initialised", "ufl_free_indices", "ufl_index_dimensions")
 
     def __new__(cls, a, b):
         """Create new Inner."""
@@ -174,15 +181,22 @@ class Inner(CompoundTensorOperator):
         if (a, b) != tuple(sorted_expr((a, b))):
             return Conj(Inner(b, a))
 
-        return CompoundTensorOperator.__new__(cls)
+        # Construct a new instance to be initialised
+        self = CompoundTensorOperator.__new__(cls)
+        self._initialised = False
+        return self
 
     def __init__(self, a, b):
         """Initialise."""
+        if self._initialised:
+            # `__new__` returned an existing Inner (e.g. inner(inner(v, w), 1))
+            return
         CompoundTensorOperator.__init__(self, (a, b))
 
         fi, fid = merge_nonoverlapping_indices(a, b)
         self.ufl_free_indices = fi
         self.ufl_index_dimensions = fid
+        self._initialised = True
 
     ufl_shape = ()
 
@@ -345,7 +359,7 @@ class Trace(CompoundTensorOperator):
 class Determinant(CompoundTensorOperator):
     """Determinant."""
 
-    __slots__ = ()
+    __slots__ = ("_initialised",)
 
     def __new__(cls, A):
         """Create new Determinant."""
@@ -367,11 +381,18 @@ class Determinant(CompoundTensorOperator):
         if r == 0:
             return A
 
-        return CompoundTensorOperator.__new__(cls)
+        # Construct a new instance to be initialised
+        self = CompoundTensorOperator.__new__(cls)
+        self._initialised = False
+        return self
 
     def __init__(self, A):
         """Initialise."""
+        if self._initialised:
+            # `__new__` returned an existing Determinant (the determinant of a scalar is the scalar)
+            return
         CompoundTensorOperator.__init__(self, (A,))
+        self._initialised = True
 
     def __str__(self):
         """Format as a string."""
